@@ -2,6 +2,7 @@ package rueidis
 
 import (
 	"context"
+	"strconv"
 	"sync"
 	"time"
 )
@@ -59,6 +60,12 @@ func NewSimpleCacheAdapter(store SimpleCache) CacheStore {
 	return &adapter{store: store, flights: make(map[string]map[string]CacheEntry)}
 }
 
+// storeKey is the SimpleCache key of a cached command: the key is length-prefixed so that
+// different (key, cmd) pairs never share an entry
+func storeKey(key, cmd string) string {
+	return strconv.Itoa(len(key)) + ":" + key + cmd
+}
+
 type adapter struct {
 	store   SimpleCache
 	flights map[string]map[string]CacheEntry
@@ -67,7 +74,7 @@ type adapter struct {
 
 func (a *adapter) Flight(key, cmd string, ttl time.Duration, now time.Time) (RedisMessage, CacheEntry) {
 	a.mu.RLock()
-	if v := a.store.Get(key + cmd); v.typ != 0 && v.relativePTTL(now) > 0 {
+	if v := a.store.Get(storeKey(key, cmd)); v.typ != 0 && v.relativePTTL(now) > 0 {
 		a.mu.RUnlock()
 		return v, nil
 	}
@@ -98,7 +105,7 @@ func (a *adapter) Update(key, cmd string, val RedisMessage) (sxat int64) {
 			sxat = flight.xat
 			val.setExpireAt(sxat)
 		}
-		a.store.Set(key+cmd, val)
+		a.store.Set(storeKey(key, cmd), val)
 		flight.set(val, nil)
 		entries[cmd] = nil
 	}
@@ -120,7 +127,7 @@ func (a *adapter) del(key string) {
 	entries := a.flights[key]
 	for cmd, e := range entries {
 		if e == nil {
-			a.store.Del(key + cmd)
+			a.store.Del(storeKey(key, cmd))
 			delete(entries, cmd)
 		}
 	}
